@@ -26,7 +26,8 @@ RECURSIVE Flat(_)
 Flat(ss) == IF ss = <<>> THEN <<>> ELSE Head(ss) \o Flat(Tail(ss))
 
 St0(cfg) == [cfg |-> cfg, nodes |-> <<>>, pending |-> <<>>, pools |-> <<>>, placed |-> {}, opens |-> <<>>, created |-> <<>>,
-             home |-> {}, optsOf |-> {}, inPass |-> FALSE, sameHome |-> FALSE, nopen |-> 0, nguard |-> 0]
+             home |-> {}, optsOf |-> {}, passOf |-> {}, inPass |-> FALSE, sameHome |-> FALSE, nopen |-> 0, nguard |-> 0]
+Vs(guard, sigs) == [i \in DOMAIN sigs |-> V(guard, sigs[i])]
 
 TraceInit == l = 1 /\ st = St0(<<>>) /\ viol = <<>> /\ ntr = 0 /\ done = FALSE
 
@@ -105,14 +106,15 @@ TApi ==
     /\ viol' = viol \o
          (IF Ev.kind = "NodeClaim" /\ Ev.verb = "create" /\ Ev.actor = "provisioner" /\ Ev.err = "-" /\ Ev.post.exists /\ HasPool(st.pools, Ev.post.pool)
           THEN LET lim == st.pools[LimOf(st.pools, Ev.post.pool)].limits IN
-               Chk(G_C03_CreateUnderLimit(cfg, st.nodes, Ev.post.pool, lim), "G_C03_CreateUnderLimit", SigCapacity(cfg, st.nodes, Ev.post.pool, lim))
+               Vs("G_C03_CreateUnderLimit", SigsCapacity(cfg, st.nodes, Ev.post.pool, lim, st.passOf))
           ELSE <<>>)
     /\ UNCHANGED <<st, ntr>>
 
 TCreated ==
     /\ Ev.e = "Created"
     /\ st' = [st EXCEPT !.created = Append(@, Ev), !.home = SetHome(@, Range(Ev.pods), Ev.claim),
-                        !.optsOf = {x \in @ : x.claim # Ev.claim} \cup {[claim |-> Ev.claim, opts |-> Ev.opts]}]
+                        !.optsOf = {x \in @ : x.claim # Ev.claim} \cup {[claim |-> Ev.claim, opts |-> Ev.opts]},
+                        !.passOf = @ \cup {[claim |-> Ev.claim, pass |-> Ev.pass]}]
     /\ UNCHANGED <<viol, ntr>>
 
 \* launch options of the NodeClaims of `pool` that have no instance yet (this pass's and, if the pass ran although it should not, older ones)
@@ -132,8 +134,7 @@ TPassEnd ==
          \o Flat([i \in DOMAIN st.pools |->
                 LET pl == st.pools[i] IN
                 IF ~CreatedIn(pl.pool) THEN <<>>
-                ELSE Chk(G_C03_OpenWithinLimits(cfg, st.nodes, pl.pool, pl.limits, PendingOpts(pl.pool)), "G_C03_OpenWithinLimits",
-                         SigWithin(cfg, st.nodes, pl.pool, pl.limits, PendingOpts(pl.pool)))])
+                ELSE Vs("G_C03_OpenWithinLimits", SigsWithin(cfg, st.nodes, pl.pool, pl.limits, PendingOpts(pl.pool)))])
          \o (IF Ev.ran /\ st.sameHome /\ G_C04_PassOnlyWhenSynced(st.nodes)
              THEN Chk(Ev.created = 0 /\ Ev.opens = 0, "Inv_C04_Idempotent",
                       "home:" \o Stage(st.nodes[NodeByClaim(st.nodes, HomeOf(st.home, st.pending[1]))])) ELSE <<>>)
@@ -144,7 +145,7 @@ TTotals ==
     /\ Ev.e = "Totals"
     /\ viol' = viol \o Flat([i \in DOMAIN Ev.pools |->
             LET pl == Ev.pools[i] IN
-            Chk(PoolCapacityOK(cfg, Ev.nodes, pl.pool, pl.limits), "Inv_C03_PoolCapacity", SigCapacity(cfg, Ev.nodes, pl.pool, pl.limits))
+            Vs("Inv_C03_PoolCapacity", SigsCapacity(cfg, Ev.nodes, pl.pool, pl.limits, st.passOf))
             \* cross-check (never a verdict): right after the informers delivered everything Cluster.NodePoolResourcesFor equals the API truth
             \o (IF Ev.fresh /\ pl.ready
                 THEN LET u == PoolUsage(cfg, Ev.nodes, pl.pool, Cap)
